@@ -110,6 +110,8 @@ enum Base {
     String,
     ViaStr,
     Bytes,
+    /// `Vec<u8>` (goes through `deserialize_seq`; only used for `!!binary` payloads)
+    VecU8,
     Val,
 }
 
@@ -154,7 +156,7 @@ fn family_of(base: Base) -> &'static str {
         Base::Char => "char",
         Base::String => "string",
         Base::ViaStr => "str",
-        Base::Bytes => "bytes",
+        Base::Bytes | Base::VecU8 => "bytes",
         Base::Val => "untyped",
     }
 }
@@ -165,7 +167,7 @@ fn relevant(t: &Tgt, fam: Family) -> bool {
         Base::F32 | Base::F64 => matches!(fam, Family::Float | Family::Int),
         Base::Bool => fam == Family::Bool,
         Base::Char => fam == Family::Char,
-        Base::Bytes => fam == Family::B64,
+        Base::Bytes | Base::VecU8 => fam == Family::B64,
         Base::String | Base::ViaStr | Base::Val => true,
     };
     b || (t.opt && fam == Family::Null)
@@ -191,7 +193,7 @@ fn mk_opts(bits: u8) -> Options {
 fn oracle_option_mask(base: Base) -> u8 {
     match base {
         Base::I(_) | Base::U(_) => 4,
-        Base::F32 | Base::F64 | Base::Bytes => 0,
+        Base::F32 | Base::F64 | Base::Bytes | Base::VecU8 => 0,
         Base::Bool => 1,
         Base::Char | Base::ViaStr => 1 | 2,
         Base::String => 1 | 2 | 8,
@@ -293,6 +295,7 @@ fn run_lib(t: &Tgt, doc: &str, pos: Pos, o: Options) -> Result<Option<Got>, Erro
         Base::String => go!(String, Got::S),
         Base::ViaStr => go!(ViaStr, |v: ViaStr| Got::S(v.0)),
         Base::Bytes => go!(Bytes, |v: Bytes| Got::Y(v.0)),
+        Base::VecU8 => go!(Vec<u8>, Got::Y),
         Base::Val => go!(Val, Got::V),
     }
 }
@@ -553,6 +556,18 @@ fn expect_base(base: Base, sc: &Sc, o: Ob) -> Expect {
                 _ => soft("str:other-tag"),
             }
         }
+        // ------------------------------------------------ Vec<u8> from a !!binary scalar
+        Base::VecU8 => {
+            if sc.tag == TagC::Binary {
+                match ref_b64(sc.value) {
+                    B64::Valid(b) => Expect::must(Got::Y(b), "vec-u8:binary-decoded"),
+                    B64::Invalid(_) => Expect::must_err("vec-u8:binary-invalid-base64"),
+                    B64::Unspecified(_) => Expect::any("vec-u8:binary-unspecified-blank"),
+                }
+            } else {
+                Expect::any("vec-u8:scalar-without-binary-tag")
+            }
+        }
         // ------------------------------------------------ bytes
         Base::Bytes => {
             if sc.tag == TagC::Binary {
@@ -735,13 +750,13 @@ fn int_wrong_value_class(base: Base, got: &Got, value: &str, o: Ob) -> &'static 
         }
         _ => (0, mask),
     };
-    if (lib_bits & mask) == (min & mask) || (lib_bits & mask) == (max & mask) {
-        return "saturated";
-    }
     if let Some(alt) = ref_int(value, !o.legacy)
         && (alt.to_i128().map(|v| v as u128) == Some(lib_bits) || alt.to_u128() == Some(lib_bits))
     {
         return "legacy-octal-option-misapplied";
+    }
+    if (lib_bits & mask) == (min & mask) || (lib_bits & mask) == (max & mask) {
+        return "saturated";
     }
     "other"
 }
@@ -1011,6 +1026,30 @@ fn run_combo(
     }
     let Some(value) = value else { return };
     Local::bump(&mut loc.misc, "scalar_documents_confirmed_by_raw_parser");
+    Local::bump(
+        &mut loc.misc,
+        match style {
+            Style::Plain => "confirmed_scalars/style/plain",
+            Style::Single => "confirmed_scalars/style/single",
+            Style::Double => "confirmed_scalars/style/double",
+            Style::Literal => "confirmed_scalars/style/literal",
+            Style::Folded => "confirmed_scalars/style/folded",
+        },
+    );
+    Local::bump(
+        &mut loc.misc,
+        match tagc {
+            TagC::None => "confirmed_scalars/tag/none",
+            TagC::Int => "confirmed_scalars/tag/!!int",
+            TagC::Float => "confirmed_scalars/tag/!!float",
+            TagC::Bool => "confirmed_scalars/tag/!!bool",
+            TagC::Null => "confirmed_scalars/tag/!!null",
+            TagC::Str => "confirmed_scalars/tag/!!str",
+            TagC::Binary => "confirmed_scalars/tag/!!binary",
+            TagC::NonSpecific => "confirmed_scalars/tag/!",
+            TagC::Custom => "confirmed_scalars/tag/!custom",
+        },
+    );
     let sc = Sc { value: &value, style, tag: tagc };
     for t in TARGETS {
         let rel = relevant(t, tok.family);
@@ -1057,6 +1096,7 @@ fn nth_string(mut idx: usize, len: usize) -> String {
 const T_BYTES: Tgt = Tgt { name: "Bytes", base: Base::Bytes, opt: false };
 const T_STRING: Tgt = Tgt { name: "String", base: Base::String, opt: false };
 const T_VAL: Tgt = Tgt { name: "Val", base: Base::Val, opt: false };
+const T_VECU8: Tgt = Tgt { name: "Vec<u8>", base: Base::VecU8, opt: false };
 
 fn b64_cells(run: &Run, loc: &mut Local, payload: &str, style: Style, nontrivial: bool, ro: &RenderOpts) {
     let Some((doc, value)) = build_doc(payload, style, Some("!!binary"), Pos::Root, ro) else {
@@ -1064,7 +1104,7 @@ fn b64_cells(run: &Run, loc: &mut Local, payload: &str, style: Style, nontrivial
         return;
     };
     let sc = Sc { value: &value, style, tag: TagC::Binary };
-    for (t, obits) in [(&T_BYTES, 0u8), (&T_STRING, 0), (&T_VAL, 0), (&T_STRING, 8), (&T_BYTES, 8)] {
+    for (t, obits) in [(&T_BYTES, 0u8), (&T_STRING, 0), (&T_VAL, 0), (&T_VECU8, 0), (&T_STRING, 8), (&T_BYTES, 8)] {
         let e = expect(t, &sc, ob(obits));
         cell(run, loc, t, &sc, &e, &doc, Pos::Root, obits, false);
     }
@@ -1116,7 +1156,7 @@ fn replay(run: &Run, case: &Value) {
     };
     let tname = case["target"].as_str().unwrap_or("");
     let obits = case["opts"].as_u64().unwrap_or(0) as u8;
-    let Some(t) = TARGETS.iter().find(|t| t.name == tname) else {
+    let Some(t) = TARGETS.iter().chain(std::iter::once(&T_VECU8)).find(|t| t.name == tname) else {
         eprintln!("harness error: unknown target {tname}");
         std::process::exit(2);
     };
@@ -1307,7 +1347,7 @@ fn main() {
         "{plain, double, single, literal(strip), folded(clip)} x {no tag, !!str, !!binary, !!int, !!float, !!bool, !!null, !, !custom}"
     };
     let scope = format!(
-        "(1) every token of the fixed corpus ({} tokens: every width boundary -2..+1 for 8/16/32/64/128 bits signed and unsigned and magnitudes >= 2^128, in radix 10/16/8/2 and legacy-octal spelling, x sign none/+/- x 11 decorations (separators, leading zeros, prefix and digit case); all casings of y/n/yes/no/on/off/true/false/null; float forms; char and string edge cases; base64 payloads) x {styles_scope} x positions {{root, sequence item, mapping value}} x {} targets x all 16 option vectors (strict_booleans, no_schema, legacy_octal_numbers, ignore_binary_tag_for_string); (2) every string of length <= {max_len} over the 12 symbols A B / + = Z a 0 SP LF ? - as a !!binary payload (double-quoted, and plain where the raw parser confirms it) into Bytes/String/Val; (3) base64 encodings of all byte arrays of length <= 2",
+        "(1) every token of the fixed corpus ({} tokens: every width boundary -2..+1 for 8/16/32/64/128 bits signed and unsigned and magnitudes >= 2^128, in radix 10/16/8/2 and legacy-octal spelling, x sign none/+/- x 11 decorations (separators, leading zeros, prefix and digit case); all casings of y/n/yes/no/on/off/true/false/null; float forms; char and string edge cases; base64 payloads) x {styles_scope} x positions {{root, sequence item, mapping value}} x {} targets x all 16 option vectors (strict_booleans, no_schema, legacy_octal_numbers, ignore_binary_tag_for_string); (2) every string of length <= {max_len} over the 12 symbols A B / + = Z a 0 SP LF ? - as a !!binary payload (double-quoted, and plain where the raw parser confirms it) into Bytes / Vec<u8> / String / Val; (3) base64 encodings of all byte arrays of length <= 2",
         corpus.len(),
         TARGETS.len()
     );
@@ -1318,7 +1358,7 @@ fn main() {
     .assume("raw saphyr-parser event stream is the ground truth for the scalar's value, style and tag in every generated document")
     .assume("angle_conversions = false (robotics feature compiled in, switched off)")
     .assume("decimal float reference values come from Rust's correctly rounded str::parse::<f32/f64> on the grammar-checked text (independent of the library's acceptance logic, not of the rounding routine)")
-    .min_nontrivial(if tier == Tier::Quick { 100_000 } else { 400_000 });
+    .min_nontrivial(if tier == Tier::Quick { 500_000 } else { 5_000_000 });
     run.finish(fin);
 }
 
